@@ -22,12 +22,13 @@ import (
 //                 (c) macroexpand-1 iterated to a fixpoint equals macroexpand
 //   idx%4 == 2    quasiquote templates: real vs template model (quote marks compared)
 //   idx%4 == 3    gensym: distinctness among themselves and from the program's symbols
+//                 (idx%16 == 15: over long histories, the counter fast-forwarded - c07_long.go)
 
 func init() {
 	fw.Register(&fw.Prop{
 		ID:    "C07",
 		Level: "exploration",
-		Rule: "macro definitions generated from quasiquote templates (unquote / unquote-splicing at first, middle, last position, adjacent and empty splices, under quote marks, in nested lists; macros expanding to macro calls, to definitions, using gensym; defmacro and macrolet) with call sites whose argument forms carry effect probes; quasiquote templates of depth <= 6; gensym runs of up to 2000 symbols per runtime incl. through trace/get-default/deftype/curry-function in programs whose text contains gen-prefixed numbered symbols. " +
+		Rule: "macro definitions generated from quasiquote templates (unquote / unquote-splicing at first, middle, last position, adjacent and empty splices, under quote marks, in nested lists; macros expanding to macro calls, to definitions, using gensym; defmacro and macrolet) with call sites whose argument forms carry effect probes; quasiquote templates of depth <= 6; gensym runs of up to 2000 symbols per runtime incl. through trace/get-default/deftype/curry-function in programs whose text contains gen-prefixed numbered symbols; gensym over long histories: one runtime, symbols taken through (gensym), user macros, builtin macro expansions, Runtime.GenSym and LEnv.GenSym, the counter fast-forwarded (hook VerifAdvanceGenSym) 1-4 times between the takes and inside evaluations by amounts around 10^1..10^19, 2^31, 2^32, 2^53, 2^63 and up to 2^64-2^32 in total, all symbols of the runtime pairwise distinct (Go strings and equal?) and absent from the texts loaded, macro-hygiene programs whose expansions are made before and after fast-forwards agreeing with the reference model. " +
 			"distinct_nontrivial counts distinct (template shapes, call shape, outcome) and (qq template skeleton) signatures",
 		Assumptions: []string{
 			"the template model is refint's quasiquote (everything literal, unquote inserts a value, unquote-splicing splices a list, written quote marks are re-applied)",
@@ -242,7 +243,11 @@ func c07Run(w *fw.W, idx int) {
 	case 2:
 		c07Quasi(w, idx)
 	case 3:
-		c07Gensym(w, idx)
+		if idx%16 == 15 {
+			c07GensymLong(w, idx) // c07_long.go
+		} else {
+			c07Gensym(w, idx)
+		}
 	default:
 		c07Macros(w, idx)
 	}
